@@ -1,15 +1,21 @@
 #!/bin/bash
-# usage: tools/try_seed.sh <seed-dir-under-/tmp or /verif/seeded/<id>> <check ids...>
-# Applies <dir>/patch.diff to /repo, runs the given checks (quick), and restores /repo.
+# usage: tools/try_seed.sh <dir holding patch.diff> <check ids...>
+# Runs the given checks against a scratch worktree of /repo with the seeded change applied
+# (VERIF_REPO, see ./check): /repo itself is never modified, so registered checks and
+# background runs that build from /repo are not disturbed. The worktree and all build output
+# are removed afterwards. TIER=thorough and VERIF_SEED are honoured.
 set -u
-dir=$1; shift
-cd /repo || exit 2
-if [ -n "$(git status --porcelain)" ]; then echo "/repo is not clean"; exit 2; fi
-git apply "$dir/patch.diff" || { echo "patch does not apply"; exit 2; }
+dir=$(cd "$1" && pwd); shift
+name=$(basename "$dir")
+wt=/tmp/seedrun/$name.$$
+mkdir -p /tmp/seedrun
+git -C /repo worktree add --detach "$wt" HEAD >/dev/null 2>&1 || { echo "cannot create worktree"; exit 2; }
+cleanup() { git -C /repo worktree remove --force "$wt" >/dev/null 2>&1; rm -rf "/verif/out/alt-$(echo "$wt" | sed 's/[^A-Za-z0-9]\+/_/g; s/^_//; s/_$//')"; }
+trap cleanup EXIT
+git -C "$wt" apply "$dir/patch.diff" || { echo "patch does not apply"; exit 2; }
 cd /verif
 for c in "$@"; do
   start=$(date +%s)
-  out=$(VERIF_EVIDENCE_DIR=/verif/out/trial-evidence VERIF_SEED=${VERIF_SEED:-1} ./check $c ${TIER:-quick} 2>&1 | grep -v "^KNOWN-FINDING" | grep "^VIOLATION\|^$c \|^violation\|INCONCLUSIVE" | cut -c1-260)
-  echo "== $c ($(( $(date +%s) - start ))s)"; echo "$out" | tail -6
+  out=$(VERIF_REPO=$wt VERIF_SEED=${VERIF_SEED:-1} ./check $c ${TIER:-quick} 2>&1 | grep -v "^KNOWN-FINDING" | grep "^VIOLATION\|^$c \|^violation\|INCONCLUSIVE" | cut -c1-300)
+  echo "== $name $c ($(( $(date +%s) - start ))s)"; echo "$out" | tail -8
 done
-git -C /repo checkout -- . && git -C /repo status --short
